@@ -282,6 +282,14 @@ def evaluate(prop, tier="quick", repo=None, scratch=False, only_rule=None):
                 ctx.undecided("rule-crash", "rule raised %s: %s\n%s" % (type(e).__name__, e, tb))
             if len(ctx.obs) == before:
                 ctx.missing("vacuous", "rule produced no obligation in config %s" % cfg)
+    if tier == "thorough" and hasattr(mod, "THOROUGH_RULES") and not only_rule:
+        for rid, fn in mod.THOROUGH_RULES:
+            ctx.cur_rule = rid
+            ctx.cur_config = None
+            try:
+                fn(ctx)
+            except Exception as e:
+                ctx.undecided("rule-crash", "thorough rule raised %s: %s" % (type(e).__name__, e))
     return ctx
 
 
